@@ -23,6 +23,8 @@ from ..terms import Lin, ZERO
 from . import own
 from .common import short, fn_loc, robust, congruent
 
+UNSIGNED_CHAR = [False]
+
 LEVEL = 'other'
 EXPLANATION = ('abstract interpretation of the layout routines with every format_spec field, the sign class, the digit count and the '
                'text size symbolic; on each path the emitted unit sequence (literals, pad runs, text ranges) is compared with the '
@@ -664,11 +666,13 @@ def char_rendering(run, m, F, E):
     from .. import bits as B
     f = None
     for name in F.lib:
-        if m.func(name).dem.startswith('_ST_PRIVATE::format_char(ST::format_spec const&, ST::format_writer&, int)'):
+        if re.match(r'^_ST_PRIVATE::format_char\(ST::format_spec const&, ST::format_writer&, (int|unsigned int|char32_t|long|unsigned long)\)', m.func(name).dem):
             f = m.func(name)
     if f is None:
-        run.ob('R11.5', 'format_char', None, 'character renderer _ST_PRIVATE::format_char(format_spec, writer, int) not found: not analysed')
+        run.ob('R11.5', 'format_char', None, 'character renderer _ST_PRIVATE::format_char(format_spec, writer, <integer>) not found: not analysed')
         return 0
+    ch_signed = re.search(r', (int|long)\)', f.dem) is not None
+    ch_bits = int(f.params[2]['ty'][1:]) if f.params[2]['ty'][1:].isdigit() else 32
 
     class CH(WriterHooks):
         def call(self2, I, st, inst, name, args):
@@ -695,9 +699,9 @@ def char_rendering(run, m, F, E):
             st.objs['SPEC'].cells[fld[1]] = (4, IntV(32, ZERO, 's'))
         if nm == 'pad':
             st.objs['SPEC'].cells[fld[1]] = (1, IntV(8, ZERO, 'u'))
-    st.rng['ch'] = (-(1 << 31), (1 << 31) - 1)
+    st.rng['ch'] = (-(1 << (ch_bits - 1)), (1 << (ch_bits - 1)) - 1) if ch_signed else (0, (1 << ch_bits) - 1)
     w = I.fresh_ptr(st, 'writer')
-    outs = I.run(I.start(f, [PtrV('SPEC'), w, IntV(32, Lin.atom('ch'), 's')], st))
+    outs = I.run(I.start(f, [PtrV('SPEC'), w, IntV(ch_bits, Lin.atom('ch'), 's' if ch_signed else 'u')], st))
     rows = c01.UTF8_ENC
     n = 0
     covered = []
@@ -765,14 +769,95 @@ def char_rendering(run, m, F, E):
         real = [x for x in problems if x]
         run.ob('R11.5', short(f.dem, 80), False if real else (None if problems else True), real[0] if real else ('unit bits not expressible' if problems else
                'UTF-8 encoding of the value, bit for bit'), disc=disc, loc=fn_loc(f))
-    # every value of int is on some path
+    # every value of the renderer's parameter is on some path
     covered.sort()
-    at = -(1 << 31)
+    at = -(1 << (ch_bits - 1)) if ch_signed else 0
+    top = ((1 << (ch_bits - 1)) - 1) if ch_signed else ((1 << ch_bits) - 1)
     for lo, hi in covered:
         if lo <= at:
             at = max(at, hi + 1)
-    if at <= (1 << 31) - 1 and covered:
+    if at <= top and covered:
         run.ob('R11.5', short(f.dem, 80), None, 'no tracked path for values from %s' % hex(at), disc='coverage', loc=fn_loc(f))
+    n += char_fronts(run, m, F, E, f, ch_signed, ch_bits)
+    return n
+
+
+def char_fronts(run, m, F, E, renderer, ch_signed, ch_bits):
+    """R11.5 (fronts): what the integer format_type overloads hand the character renderer.  For an argument value v of the overload's
+    type the code point handed over is v itself when v is in 0..10FFFF, and a value outside 0..10FFFF when v is (so that a negative
+    or too large argument renders as U+FFFD and never as some other character) - for v over the whole range of the type."""
+    DCc = enum(m, 'ST::digit_class_t', 'digit_char')
+    n = 0
+    for name in F.lib:
+        f = m.func(name)
+        mt = re.match(r'^ST::format_type\(ST::format_spec const&, ST::format_writer&, ((?:un)?signed char|char|short|unsigned short|int|unsigned int|long|unsigned long|long long|unsigned long long|wchar_t|char16_t|char32_t)\)$', f.dem)
+        if not mt or DCc is None:
+            continue
+        ty = mt.group(1)
+        bits = int(f.params[2]['ty'][1:]) if f.params[2]['ty'][1:].isdigit() else None
+        if bits is None:
+            continue
+        signed = ty in ('signed char', 'short', 'int', 'long', 'long long') or (ty == 'char' and not UNSIGNED_CHAR[0])
+        n += 1
+        got = []
+
+        def stop(I, st, inst, d, args, got=got):
+            if d.startswith('_ST_PRIVATE::format_char('):
+                st.ev('to-char', inst, args[2])
+                return [(st, None)]
+            if d.startswith('_ST_PRIVATE::format_numeric_') or d.startswith('ST::format_string('):
+                return [(st, None)]
+            return None
+        I = Interp(m, F, E, WriterHooks(m, stop))
+        st = State()
+        fl = spec_scene(I, st, m)
+        if fl is None:
+            continue
+        lay = m.structs.get('struct.ST::format_spec')
+        for nm, fld in zip(['minimum_length', 'precision', 'arg_index', 'alignment', 'digit_class'], lay['fields']):
+            if nm == 'digit_class':
+                st.objs['SPEC'].cells[fld[1]] = (4, IntV(32, Lin.const(DCc), 'u'))
+        st.rng['argv'] = (-(1 << (bits - 1)), (1 << (bits - 1)) - 1) if signed else (0, (1 << bits) - 1)
+        v = IntV(bits, Lin.atom('argv'), 's' if signed else 'u')
+        w = I.fresh_ptr(st, 'writer')
+        try:
+            outs = I.run(I.start(f, [PtrV('SPEC'), w, v], st))
+        except Exception as e:
+            run.ob('R11.5', short(f.dem, 90), None, 'not interpreted: %s' % (str(e)[:60],), disc='front', loc=fn_loc(f))
+            continue
+        probs, und, seen = [], [], 0
+        for o in outs:
+            if o.kind != 'ret':
+                continue
+            s2 = o.st
+            tc = [e for e in s2.events if e[0] == 'to-char']
+            if len(tc) != 1 or not isinstance(tc[0][2], IntV):
+                und.append('the character class does not lead to one call of the character renderer')
+                continue
+            seen += 1
+            cp = I.as_s(s2, tc[0][2]) if ch_signed else I.as_u(s2, tc[0][2])
+            av = Lin.atom('argv')
+
+            def wrong(vals):
+                a, c = vals
+                if 0 <= a <= 0x10FFFF:
+                    return c != a
+                return 0 <= c <= 0x10FFFF
+            env = s2.find_model([av, cp], wrong)
+            if env is not None:
+                from ..terms import eval_lin
+                a0 = env.get('argv')
+                try:
+                    c0 = eval_lin(cp, env)
+                except KeyError:
+                    c0 = None
+                probs.append('the argument value %d reaches the character renderer as %s: %s; witness %s' %
+                             (a0, hex(c0) if c0 is not None else '?', 'a value outside 0..10FFFF must render as U+FFFD, not as a character'
+                              if not (0 <= a0 <= 0x10FFFF) else 'a code point must reach it unchanged', own.fmt_env(env)))
+        if seen == 0 and not und:
+            und.append('no path with the character class explored')
+        run.ob('R11.5', short(f.dem, 90), False if probs else (None if und else True), probs[0] if probs else (und[0] if und else
+               'the code point handed over is the argument when it is in 0..10FFFF and outside that range when the argument is'), disc='front', loc=fn_loc(f))
     return n
 
 
@@ -1000,6 +1085,7 @@ def spec_defined(run, m, F, E):
 
 def check(run):
     m = run.module()
+    UNSIGNED_CHAR[0] = '-funsigned-char' in run.config[1]
     F = run.facts()
     E = run.effects()
     run.trust('clang 14 lowering (LLVM IR, -O0, mem2reg)', 'STIR interpreter',
